@@ -1280,4 +1280,17 @@ example : Safe_tryMultiAndOwnedWith sortDesc (.upper 51) exOps :=
 /-- teeth: the ill-formed operand is the one searched IN (more containers), met through `rhs.containers[loc]` -/
 example : ¬ Safe_andAO [⟨0, .bitmap BStore.full⟩] [⟨0, .array [70000]⟩, ⟨1, .array [1]⟩] := by decide +kernel
 
+/-- **`RoaringBitmap |= &RoaringBitmap`** (ops.rs:174-185; `a | &b` and `&a | b` forward to it) as a whole: every iteration of
+    `for container in &rhs.containers` on the `self` the iterations before left — `Vec::insert(loc, …)` with `loc ≤ len`,
+    `&mut self.containers[loc]` with `loc < len`, the container-level `|=` (container.rs:211-216) with its store-level cell
+    (store/mod.rs:307-327: `BitmapStore |= &ArrayStore`'s `bits[key]`, `1 << bit`, `len +=`; `op_bitmaps`) and
+    `ensure_correct_store` on what that left. -/
+theorem C16_safe_bitmap_or_assign_ref (a b : Bitmap) (ha : a.WF) (hb : b.WF) : Bitmap.Safe_orAR a b :=
+  Bitmap.safe_orAR b a ha.storesInv hb.storesInv
+example : Bitmap.Safe_orAR exB exB := C16_safe_bitmap_or_assign_ref exB exB exB_wf exB_wf
+example : Bitmap.Safe_orAR exB [⟨0, .array [2, 70]⟩, ⟨1, .array [9]⟩, ⟨2, .array [1]⟩] := by decide +kernel
+/-- teeth: a bitset store whose cached length is 2^64 - 1 overflows in `len +=` -/
+example : ¬ Bitmap.Safe_orAR [⟨0, .bitmap { len := 2^64 - 1, bits := List.replicate 1024 0 }⟩] [⟨0, .array [7]⟩] := by
+  decide +kernel
+
 end Roaring.C16
